@@ -117,7 +117,8 @@ theorem povm_var_T_id (t : K) (pre : Mat K m n) : Povm.projEqVarT t pre = pre :=
   simp [Povm.toVarT, Povm.ofVarT]
 
 /-- C04.3 (Povm), flag False — DEFINITIONAL in the model (`projEqVarF := projEq`; the `_with_var` site repeats the arithmetic after
-`convert_var_to_vecs`, which is a reshape done by the driver's parser); agreement of the two code sites: correspondence + oracle. -/
+`convert_var_to_vecs`, which is a reshape done by the driver's parser); agreement of the two SOURCE sites: `gen_povm_eq` / `gen_mprocess_eq` (both sites are regenerated from the source and proved equal to this
+definition), plus correspondence and oracle. -/
 theorem povm_var_eq_obj_F (t : K) (A : Mat K m n) : Povm.projEqVarF t A = Povm.projEq t A := rfl
 
 /-! ## Gate -/
@@ -223,8 +224,8 @@ theorem mprocess_projEq_idem (T : Ten K m n n) (hm : 0 < m) :
     MProcess.projEq (MProcess.projEq T) = MProcess.projEq T :=
   mprocess_projEq_fix _ hm (mprocess_projEq_mem T hm)
 
-/-- C04.3 (MProcess), flag False — DEFINITIONAL in the model (`projEqVarF := projEq`); agreement of the two code sites:
-correspondence + oracle. -/
+/-- C04.3 (MProcess), flag False — DEFINITIONAL in the model (`projEqVarF := projEq`); agreement of the two SOURCE sites:
+`gen_mprocess_eq`, plus correspondence and oracle. -/
 theorem mprocess_var_eq_obj_F (T : Ten K m n n) : MProcess.projEqVarF T = MProcess.projEq T := rfl
 
 /-- C04.3 (MProcess) under the parametrised constraint the completed m-process `ofVarT` is feasible (the first row of the last
@@ -305,6 +306,28 @@ theorem gen_gate_eq (dim : Nat) (flag : Bool) (hs : Mat K n n) (var : Vec K N) :
       · have : 1 ≤ k.val := Nat.one_le_iff_ne_zero.2 hk
         simp [hk, this]
     · rfl
+
+/-- tie to the source (Povm): the equality arithmetic translated from povm.py on this run (`new_vec = vec - a_bar + c` with
+`a_bar = np.sum(vecs, axis=0)/m`, `c = [√d/m, 0, …]`), object level and `_with_var`, is the model's projection — so for flag
+False "object level = variable level" is a statement about the two SOURCE sites, not only about the model. -/
+theorem gen_povm_eq (t : K) (vecs : Mat K m n) :
+    QGen.C04.povmEqObj t vecs = Povm.projEq t vecs ∧ QGen.C04.povmEqVar t vecs = Povm.projEqVarF t vecs := by
+  constructor <;>
+  · apply Mat.ext'; intro x i
+    simp [QGen.C04.povmEqObj, QGen.C04.povmEqVar, Povm.projEqVarF, Povm.projEq]
+
+/-- tie to the source (MProcess): `vec = Σ hs[0]; vec[0] -= 1; hs[0] -= vec / len(hss)` as translated from mprocess.py,
+object level and `_with_var`, is the model's projection. -/
+theorem gen_mprocess_eq (hss : Ten K m n n) :
+    QGen.C04.mprocessEqObj hss = MProcess.projEq hss ∧ QGen.C04.mprocessEqVar hss = MProcess.projEqVarF hss := by
+  constructor <;>
+  · apply Ten.ext'; intro x a b
+    simp [QGen.C04.mprocessEqObj, QGen.C04.mprocessEqVar, MProcess.projEqVarF, MProcess.projEq, Ten.get, Ten.ofFn]
+
+-- the generated definitions compute (K = ℚ)
+example : QGen.C04.povmEqObj (2 : Rat) (#v[#v[1, 2], #v[3, 4]] : Mat Rat 2 2) = #v[#v[0, -1], #v[2, 1]] := by decide +kernel
+example : QGen.C04.mprocessEqVar (#v[#v[#v[1, 2], #v[3, 4]], #v[#v[5, 6], #v[7, 8]]] : Ten Rat 2 2 2)
+    = #v[#v[#v[-3/2, -2], #v[3, 4]], #v[#v[5/2, 2], #v[7, 8]]] := by decide +kernel
 
 /-- NOT a property theorem with content (kept for the record of defect D5, repaired in /repo d072139): in the model the
 "caller's array after the call" is the identity by definition, so this is `rfl`.  Clause C04.4 ("never modify their argument") is
